@@ -6,8 +6,11 @@ import (
 	"errors"
 	"fmt"
 	"net/http"
+	"net/http/httptest"
 	"regexp"
 	"strings"
+	"sync"
+	"sync/atomic"
 	"testing"
 	"time"
 
@@ -62,6 +65,33 @@ type c20Req struct {
 type c20Case struct {
 	Cfg  c20Config `json:"cfg"`
 	Reqs []c20Req  `json:"reqs"`
+	Conc *c20Phase `json:"conc,omitempty"` // responses assembled while another response is being assembled
+}
+
+// c20Phase is the overlapping part of a case. "Every HTTP response" and "all
+// configurations" do not stop at one response at a time: a process may mount
+// several differently configured HttpServers, and each of them answers
+// requests concurrently. Side A's requests are answered while side B's are;
+// every response of either side is judged exactly like a sequential one,
+// against the configuration of the server that produced it.
+//
+//	gated: A's request is served through a ResponseWriter owned by the harness;
+//	       at chosen ResponseWriter calls (Header/WriteHeader/Write) A is held
+//	       while one request of B is answered start to end, then released. The
+//	       schedule is part of the case, so a failing case replays.
+//	free:  Workers goroutines per side run their request lists Rounds times
+//	       with nothing between them but a start barrier (the oracle stays
+//	       exact per response; which interleavings occur is up to the scheduler).
+type c20Phase struct {
+	Other   *c20Config `json:"other,omitempty"` // configuration of side B's server; nil: B is the same server as A
+	Mode    string     `json:"mode"`            // gated | free
+	A       []c20Req   `json:"a"`
+	B       []c20Req   `json:"b"` // used cyclically
+	From    int        `json:"from,omitempty"`    // gated: first ResponseWriter call of A that is a gate
+	Every   int        `json:"every,omitempty"`   // gated: every k-th call after that
+	Max     int        `json:"max,omitempty"`     // gated: at most this many gates per request of A
+	Workers int        `json:"workers,omitempty"` // free
+	Rounds  int        `json:"rounds,omitempty"`  // free
 }
 
 // ---- generator ----
@@ -119,9 +149,9 @@ func genRequestID(t *rapid.T) *string {
 	}
 }
 
-func genC20(t *rapid.T) c20Case {
-	var c c20Case
-	g := &c.Cfg
+func genC20Config(t *rapid.T) c20Config {
+	var cfg c20Config
+	g := &cfg
 	g.Prefix = []string{"", "", "/vgi", "/a/b"}[rapid.IntRange(0, 3).Draw(t, "prefix")]
 	g.Cors = []string{"", "*", "*", "https://app.example"}[rapid.IntRange(0, 3).Draw(t, "cors")]
 	g.CorsMaxAge = []int{0, 0, -1, 60}[rapid.IntRange(0, 3).Draw(t, "corsage")]
@@ -157,9 +187,11 @@ func genC20(t *rapid.T) c20Case {
 	g.NoNotFound = rapid.IntRange(0, 3).Draw(t, "nonotfound") == 0
 	g.HookFails = []int{-1, -1, 0, 0, 1, 2}[rapid.IntRange(0, 5).Draw(t, "hookfails")]
 	g.DispatchHook = rapid.IntRange(0, 2).Draw(t, "dispatchhook") == 0
+	return cfg
+}
 
-	n := rapid.IntRange(1, 5).Draw(t, "nreqs")
-	for i := 0; i < n; i++ {
+func genC20Req(t *rapid.T, i int) c20Req {
+	{
 		r := c20Req{
 			Method:      c20Methods[rapid.IntRange(0, len(c20Methods)-1).Draw(t, "method")],
 			Path:        c20Paths[rapid.IntRange(0, len(c20Paths)-1).Draw(t, "path")],
@@ -187,9 +219,59 @@ func genC20(t *rapid.T) c20Case {
 				r.Method, r.Path, r.UseSession, r.Body = "DELETE", "{p}/__session__", true, "none"
 			}
 		}
-		c.Reqs = append(c.Reqs, r)
+		return r
+	}
+}
+
+func genC20(t *rapid.T) c20Case {
+	var c c20Case
+	c.Cfg = genC20Config(t)
+	n := rapid.IntRange(1, 5).Draw(t, "nreqs")
+	for i := 0; i < n; i++ {
+		c.Reqs = append(c.Reqs, genC20Req(t, i))
+	}
+	if rapid.IntRange(0, 3).Draw(t, "conc") == 0 {
+		c.Conc = genC20Phase(t, &c.Cfg)
 	}
 	return c
+}
+
+func genC20Phase(t *rapid.T, cfg *c20Config) *c20Phase {
+	ph := &c20Phase{Mode: []string{"gated", "gated", "gated", "free"}[rapid.IntRange(0, 3).Draw(t, "conc-mode")]}
+	// the exposure clause is about CORS-enabled servers: most overlapping cases have it on
+	corsOn := func(g *c20Config) {
+		if g.Cors == "" && rapid.IntRange(0, 3).Draw(t, "conc-cors") != 0 {
+			g.Cors = []string{"*", "https://app.example"}[rapid.IntRange(0, 1).Draw(t, "conc-cors-origin")]
+		}
+	}
+	corsOn(cfg)
+	if rapid.IntRange(0, 3).Draw(t, "conc-same") != 0 {
+		other := genC20Config(t)
+		corsOn(&other)
+		ph.Other = &other
+	} else if cfg.Sticky && len(cfg.Echo) < 2 && rapid.Bool().Draw(t, "conc-echo") {
+		// one server overlapping with itself: give it several echo headers
+		cfg.Echo = [][2]string{{"fly-force-instance-id", "v0"}, {"X-Route", "v1"}, {"k", "v2"}}[:rapid.IntRange(2, 3).Draw(t, "conc-necho")]
+	}
+	na, nb := rapid.IntRange(1, 2).Draw(t, "conc-na"), rapid.IntRange(1, 3).Draw(t, "conc-nb")
+	for i := 0; i < na; i++ {
+		ph.A = append(ph.A, genC20Req(t, 0))
+	}
+	for i := 0; i < nb; i++ {
+		ph.B = append(ph.B, genC20Req(t, 0))
+	}
+	if ph.Mode == "gated" {
+		ph.From = rapid.IntRange(0, 24).Draw(t, "conc-from")
+		if rapid.Bool().Draw(t, "conc-from0") {
+			ph.From = 0
+		}
+		ph.Every = []int{1, 1, 1, 2, 3, 5}[rapid.IntRange(0, 5).Draw(t, "conc-every")]
+		ph.Max = []int{1, 2, 8, 48, 48}[rapid.IntRange(0, 4).Draw(t, "conc-max")]
+	} else {
+		ph.Workers = rapid.IntRange(2, 3).Draw(t, "conc-workers")
+		ph.Rounds = rapid.IntRange(4, 24).Draw(t, "conc-rounds")
+	}
+	return ph
 }
 
 // ---- collaborators ----
@@ -216,7 +298,7 @@ func (c20Hook) OnDispatchEnd(context.Context, vgirpc.HookToken, vgirpc.DispatchI
 
 type c20Session struct{ N int }
 
-func buildC20(g c20Config) (*vgirpc.HttpServer, *int) {
+func buildC20(g c20Config) (*vgirpc.HttpServer, *atomic.Int64) {
 	srv := newScriptedServer()
 	vgirpc.Unary(srv, "u_str_err", func(_ context.Context, _ *vgirpc.CallContext, _ lib.ScriptParams) (string, error) {
 		return "", &vgirpc.RpcError{Type: "ValueError", Message: "always fails"}
@@ -227,11 +309,10 @@ func buildC20(g c20Config) (*vgirpc.HttpServer, *int) {
 		}
 		return "opened", nil
 	})
-	hookCalls := new(int)
+	hookCalls := new(atomic.Int64)
 	if g.HookFails >= 0 {
 		srv.SetServeStartHook(func(vgirpc.TransportKind, map[string]bool) error {
-			*hookCalls++
-			if *hookCalls <= g.HookFails {
+			if hookCalls.Add(1) <= int64(g.HookFails) {
 				return errors.New("serve-start hook not ready")
 			}
 			return nil
@@ -364,28 +445,18 @@ func containsFold(list []string, s string) bool {
 	return false
 }
 
-func runC20(c c20Case) (out lib.Outcome) {
-	lib.ResetEvents()
-	g := c.Cfg
-	h, hookCalls := buildC20(g)
-	defer func() {
-		if d := h.DrainHandle(); d != nil {
-			d.Shutdown()
-		}
-	}()
+// c20Server is one configured server of a case together with what the
+// harness's own table says its configuration can emit.
+type c20Server struct {
+	g         c20Config
+	h         *vgirpc.HttpServer
+	hookCalls *atomic.Int64
+	canEmit   []string
+	features  int
+}
 
-	features := 0
-	for _, on := range []bool{g.MaxReq > 0, g.MaxResp > 0, g.MaxExtResp > 0, g.Upload, g.External, g.ProofRequired, len(g.ProxyHeaders) > 0, g.Introspect, g.Sticky, len(g.Echo) > 0, g.OAuthMeta} {
-		if on {
-			features++
-		}
-	}
-	out.Label(fmt.Sprintf("features:%d", min(features, 6)), "auth:"+g.Auth)
-	if g.Cors != "" {
-		out.Label("cors")
-	}
-
-	// what this configuration can emit, from the header documentation
+// c20CanEmit lists what a configuration can emit, from the header documentation.
+func c20CanEmit(g c20Config) []string {
 	canEmit := []string{"X-Request-ID", "VGI-Supported-Encodings", "VGI-Externalization-Enabled", "X-VGI-RPC-Error"}
 	if g.Level > 0 {
 		canEmit = append(canEmit, "X-VGI-Content-Encoding")
@@ -429,191 +500,375 @@ func runC20(c c20Case) (out lib.Outcome) {
 			}
 		}
 	}
+	return canEmit
+}
 
-	minted := map[string]int{}
-	sessionToken := ""
-	for i, r := range c.Reqs {
-		path := strings.ReplaceAll(r.Path, "{p}", g.Prefix)
-		if path == "" || (path == "*" && r.Method != "OPTIONS") {
-			path = "/"
+func newC20Server(g c20Config) *c20Server {
+	s := &c20Server{g: g, canEmit: c20CanEmit(g)}
+	s.h, s.hookCalls = buildC20(g)
+	for _, on := range []bool{g.MaxReq > 0, g.MaxResp > 0, g.MaxExtResp > 0, g.Upload, g.External, g.ProofRequired, len(g.ProxyHeaders) > 0, g.Introspect, g.Sticky, len(g.Echo) > 0, g.OAuthMeta} {
+		if on {
+			s.features++
 		}
-		var hdr hdrList
-		switch r.ContentType {
-		case "arrow":
-			hdr = append(hdr, [2]string{"Content-Type", lib.ArrowCT})
-		case "wrong":
-			hdr = append(hdr, [2]string{"Content-Type", "application/json"})
-		}
-		method := "u_str"
-		if seg := strings.Split(strings.TrimPrefix(path, g.Prefix), "/"); len(seg) > 1 && seg[1] != "" {
-			method = seg[1]
-		}
-		var body []byte
-		script := lib.UnaryScript{ID: "c20", Outcome: "value", Value: "ok"}
-		switch r.Body {
-		case "valid":
-			if strings.HasPrefix(method, "s_") {
-				ss := lib.StreamScript{ID: "c20", InitOutcome: "ok", Turns: []lib.TurnSpec{{Act: "emit"}, {Act: "finish"}}}
-				body = lib.BuildRequest(method, lib.ScriptBatch(ss.JSON()), lib.ReqOpts{})
-			} else if method == "__describe__" {
-				body = lib.BuildRequest(method, emptyOneRow(), lib.ReqOpts{})
-			} else if method == "__upload_url__" {
-				body = lib.BuildRequest(method, lib.Int64Batch(vgirpc.UploadURLParamsSchema, 1), lib.ReqOpts{})
-			} else {
-				body = lib.BuildRequest(method, lib.ScriptBatch(script.JSON()), lib.ReqOpts{})
-			}
-		case "oversize":
-			script.Value = strings.Repeat("x", 2000)
+	}
+	return s
+}
+
+func (s *c20Server) shutdown() {
+	if d := s.h.DrainHandle(); d != nil {
+		d.Shutdown()
+	}
+}
+
+// c20Render turns a request record into the concrete request for a server.
+func c20Render(g c20Config, r c20Req, sessionToken string) (path string, hdr hdrList, body []byte) {
+	path = strings.ReplaceAll(r.Path, "{p}", g.Prefix)
+	if path == "" || (path == "*" && r.Method != "OPTIONS") {
+		path = "/"
+	}
+	switch r.ContentType {
+	case "arrow":
+		hdr = append(hdr, [2]string{"Content-Type", lib.ArrowCT})
+	case "wrong":
+		hdr = append(hdr, [2]string{"Content-Type", "application/json"})
+	}
+	method := "u_str"
+	if seg := strings.Split(strings.TrimPrefix(path, g.Prefix), "/"); len(seg) > 1 && seg[1] != "" {
+		method = seg[1]
+	}
+	script := lib.UnaryScript{ID: "c20", Outcome: "value", Value: "ok"}
+	switch r.Body {
+	case "valid":
+		if strings.HasPrefix(method, "s_") {
+			ss := lib.StreamScript{ID: "c20", InitOutcome: "ok", Turns: []lib.TurnSpec{{Act: "emit"}, {Act: "finish"}}}
+			body = lib.BuildRequest(method, lib.ScriptBatch(ss.JSON()), lib.ReqOpts{})
+		} else if method == "__describe__" {
+			body = lib.BuildRequest(method, emptyOneRow(), lib.ReqOpts{})
+		} else if method == "__upload_url__" {
+			body = lib.BuildRequest(method, lib.Int64Batch(vgirpc.UploadURLParamsSchema, 1), lib.ReqOpts{})
+		} else {
 			body = lib.BuildRequest(method, lib.ScriptBatch(script.JSON()), lib.ReqOpts{})
-		case "garbage":
-			// unparsable, but without a huge declared message length (arrow-go
-			// allocates declared lengths up front: recorded finding C01/oom-declared-length)
-			valid := lib.BuildRequest(method, lib.ScriptBatch(script.JSON()), lib.ReqOpts{})
-			body = valid[:len(valid)/2]
 		}
-		if r.Method == "GET" || r.Method == "HEAD" || r.Method == "OPTIONS" {
-			body = nil
-		}
-		if r.Coding != "" && body != nil {
-			hdr = append(hdr, [2]string{"Content-Encoding", r.Coding}) // body is not actually encoded for zstd/gzip: a bad-coding request
-		}
-		if r.RequestID != nil {
-			hdr = append(hdr, [2]string{"X-Request-ID", *r.RequestID})
-		}
-		if r.Accept != "" {
-			hdr = append(hdr, [2]string{"X-VGI-Accept-Encoding", r.Accept})
-		}
-		if r.ACRH != "" {
-			hdr = append(hdr, [2]string{"Access-Control-Request-Headers", r.ACRH}, [2]string{"Origin", "https://app.example"})
-		}
-		if r.SessAccept {
-			hdr = append(hdr, [2]string{"VGI-Session-Accept", "true"})
-		}
-		if r.UseSession && sessionToken != "" {
-			hdr = append(hdr, [2]string{"VGI-Session", sessionToken})
-		}
-		callsBefore := *hookCalls
-		res := doRequest(h, r.Method, path, hdr, body, true)
-		desc := fmt.Sprintf("request #%d %s %s (ct=%s body=%s coding=%q rid=%s) -> %d; cfg prefix=%q cors=%q auth=%s hook_fails=%d", i, r.Method, path, r.ContentType, r.Body, r.Coding, showp(r.RequestID), res.Status, g.Prefix, g.Cors, g.Auth, g.HookFails)
-		if res.Panic != "" {
-			out.Violate("C20/panic", "%s: panic %s", desc, lib.Short(res.Panic, 300))
-			return
-		}
-		if t := res.Header.Get("VGI-Session"); t != "" {
-			sessionToken = t
-			out.Label("session-opened")
-		}
-		if res.Header.Get("VGI-Session-Close") != "" {
-			out.Label("session-closed")
-		}
-		out.Label(fmt.Sprintf("status:%d", res.Status), "method:"+r.Method)
+	case "oversize":
+		script.Value = strings.Repeat("x", 2000)
+		body = lib.BuildRequest(method, lib.ScriptBatch(script.JSON()), lib.ReqOpts{})
+	case "garbage":
+		// unparsable, but without a huge declared message length (arrow-go
+		// allocates declared lengths up front: recorded finding C01/oom-declared-length)
+		valid := lib.BuildRequest(method, lib.ScriptBatch(script.JSON()), lib.ReqOpts{})
+		body = valid[:len(valid)/2]
+	}
+	if r.Method == "GET" || r.Method == "HEAD" || r.Method == "OPTIONS" {
+		body = nil
+	}
+	if r.Coding != "" && body != nil {
+		hdr = append(hdr, [2]string{"Content-Encoding", r.Coding}) // body is not actually encoded for zstd/gzip: a bad-coding request
+	}
+	if r.RequestID != nil {
+		hdr = append(hdr, [2]string{"X-Request-ID", *r.RequestID})
+	}
+	if r.Accept != "" {
+		hdr = append(hdr, [2]string{"X-VGI-Accept-Encoding", r.Accept})
+	}
+	if r.ACRH != "" {
+		hdr = append(hdr, [2]string{"Access-Control-Request-Headers", r.ACRH}, [2]string{"Origin", "https://app.example"})
+	}
+	if r.SessAccept {
+		hdr = append(hdr, [2]string{"VGI-Session-Accept", "true"})
+	}
+	if r.UseSession && sessionToken != "" {
+		hdr = append(hdr, [2]string{"VGI-Session", sessionToken})
+	}
+	return path, hdr, body
+}
 
-		// (1) correlation id
-		ids := res.Header.Values("X-Request-ID")
-		wantEcho := ""
-		if r.RequestID != nil {
-			if tr := trimOWS(*r.RequestID); len(tr) >= 1 && len(tr) <= 128 {
-				wantEcho = tr
-			}
-		}
-		stage := "after-hook"
-		hookOK := g.HookFails < 0 || callsBefore >= g.HookFails // the hook had already succeeded, or succeeds on this request
-		if !hookOK {
-			stage = "hook-failing"
-			out.Label("hook-failing-response")
-		}
-		switch {
-		case len(ids) != 1:
-			out.Violate(lib.Keyf("C20", "request-id-missing", stage), "%s: X-Request-ID present %d times", desc, len(ids))
-		case wantEcho != "":
-			out.Label("rid:echo")
-			if ids[0] != wantEcho {
-				out.Violate("C20/request-id-not-echoed", "%s: X-Request-ID %q, want the caller's trimmed id %q", desc, ids[0], wantEcho)
-			}
-		default:
-			out.Label("rid:minted")
-			if r.RequestID != nil && len(trimOWS(*r.RequestID)) > 128 {
-				out.Label("rid:oversize")
-			}
-			if !hex16.MatchString(ids[0]) {
-				out.Violate("C20/request-id-not-fresh-hex", "%s: X-Request-ID %q is not 16 lowercase hex characters", desc, ids[0])
-			} else if prev, dup := minted[ids[0]]; dup {
-				out.Violate("C20/request-id-reused", "%s: minted id %q was already used for request #%d", desc, ids[0], prev)
-			}
-			minted[ids[0]] = i
-		}
-		if !hookOK {
-			continue
-		}
+// c20Judge applies the three clauses to one response of server s. hookOK says
+// that the serve-start hook had succeeded by the time the response was made.
+// minted collects the ids minted within the case (nil: freshness within the
+// case is not judged for this response).
+func c20Judge(out *lib.Outcome, s *c20Server, what string, r c20Req, path string, res httpResult, hookOK bool, minted map[string]string) {
+	g := s.g
+	desc := fmt.Sprintf("%s %s %s (ct=%s body=%s coding=%q rid=%s) -> %d; cfg prefix=%q cors=%q auth=%s hook_fails=%d", what, r.Method, path, r.ContentType, r.Body, r.Coding, showp(r.RequestID), res.Status, g.Prefix, g.Cors, g.Auth, g.HookFails)
+	if res.Panic != "" {
+		out.Violate("C20/panic", "%s: panic %s", desc, lib.Short(res.Panic, 300))
+		return
+	}
+	out.Label(fmt.Sprintf("status:%d", res.Status), "method:"+r.Method)
 
-		// (2) capability headers on every response after the hook succeeded
-		if v := res.Header.Values("VGI-Supported-Encodings"); len(v) != 1 {
-			out.Violate("C20/supported-encodings-missing", "%s: VGI-Supported-Encodings present %d times", desc, len(v))
+	// (1) correlation id
+	ids := res.Header.Values("X-Request-ID")
+	wantEcho := ""
+	if r.RequestID != nil {
+		if tr := trimOWS(*r.RequestID); len(tr) >= 1 && len(tr) <= 128 {
+			wantEcho = tr
 		}
-		ext := res.Header.Values("VGI-Externalization-Enabled")
-		wantExt := "false"
-		if g.External {
-			wantExt = "true"
+	}
+	stage := "after-hook"
+	if !hookOK {
+		stage = "hook-failing"
+		out.Label("hook-failing-response")
+	}
+	switch {
+	case len(ids) != 1:
+		out.Violate(lib.Keyf("C20", "request-id-missing", stage), "%s: X-Request-ID present %d times", desc, len(ids))
+	case wantEcho != "":
+		out.Label("rid:echo")
+		if ids[0] != wantEcho {
+			out.Violate("C20/request-id-not-echoed", "%s: X-Request-ID %q, want the caller's trimmed id %q", desc, ids[0], wantEcho)
 		}
-		if len(ext) != 1 {
-			out.Violate("C20/externalization-header-missing", "%s: VGI-Externalization-Enabled present %d times", desc, len(ext))
-		} else if ext[0] != wantExt {
-			out.Violate("C20/externalization-header-value", "%s: VGI-Externalization-Enabled=%q, external storage configured=%v", desc, ext[0], g.External)
+	default:
+		out.Label("rid:minted")
+		if r.RequestID != nil && len(trimOWS(*r.RequestID)) > 128 {
+			out.Label("rid:oversize")
 		}
+		if !hex16.MatchString(ids[0]) {
+			out.Violate("C20/request-id-not-fresh-hex", "%s: X-Request-ID %q is not 16 lowercase hex characters", desc, ids[0])
+		} else if minted != nil {
+			if prev, dup := minted[ids[0]]; dup {
+				out.Violate("C20/request-id-reused", "%s: minted id %q was already used for %s", desc, ids[0], prev)
+			}
+			minted[ids[0]] = what
+		}
+	}
+	if !hookOK {
+		return
+	}
 
-		// (3) CORS exposure
-		if g.Cors == "" {
-			continue
-		}
-		nonOK := res.Status < 200 || res.Status > 299 || r.Method == "OPTIONS"
-		if nonOK && features >= 2 {
-			out.NonTrivial = true
-		}
-		aceh := res.Header.Values("Access-Control-Expose-Headers")
-		if len(aceh) == 0 {
-			out.Violate("C20/expose-headers-missing", "%s: CORS is enabled but the response has no Access-Control-Expose-Headers", desc)
-			continue
-		}
-		var exposed []string
-		for _, v := range aceh {
-			for _, n := range strings.Split(v, ",") {
-				if n = strings.TrimSpace(n); n != "" {
-					exposed = append(exposed, n)
-				}
+	// (2) capability headers on every response after the hook succeeded
+	if v := res.Header.Values("VGI-Supported-Encodings"); len(v) != 1 {
+		out.Violate("C20/supported-encodings-missing", "%s: VGI-Supported-Encodings present %d times", desc, len(v))
+	}
+	ext := res.Header.Values("VGI-Externalization-Enabled")
+	wantExt := "false"
+	if g.External {
+		wantExt = "true"
+	}
+	if len(ext) != 1 {
+		out.Violate("C20/externalization-header-missing", "%s: VGI-Externalization-Enabled present %d times", desc, len(ext))
+	} else if ext[0] != wantExt {
+		out.Violate("C20/externalization-header-value", "%s: VGI-Externalization-Enabled=%q, external storage configured=%v", desc, ext[0], g.External)
+	}
+
+	// (3) CORS exposure
+	if g.Cors == "" {
+		return
+	}
+	nonOK := res.Status < 200 || res.Status > 299 || r.Method == "OPTIONS"
+	if nonOK && s.features >= 2 {
+		out.NonTrivial = true
+	}
+	aceh := res.Header.Values("Access-Control-Expose-Headers")
+	if len(aceh) == 0 {
+		out.Violate("C20/expose-headers-missing", "%s: CORS is enabled but the response has no Access-Control-Expose-Headers", desc)
+		return
+	}
+	var exposed []string
+	for _, v := range aceh {
+		for _, n := range strings.Split(v, ",") {
+			if n = strings.TrimSpace(n); n != "" {
+				exposed = append(exposed, n)
 			}
 		}
-		for _, name := range headerNames(res.Header) {
-			up := strings.ToUpper(name)
-			if strings.HasPrefix(up, "VGI-") || strings.HasPrefix(up, "X-VGI-") || up == "WWW-AUTHENTICATE" || up == "X-REQUEST-ID" {
-				if !containsFold(exposed, name) {
-					key := name
-					if strings.HasPrefix(up, "VGI-ECHO-") {
-						key = "VGI-Echo-*"
-					}
-					out.Violate(lib.Keyf("C20", "emitted-header-not-exposed", key), "%s: response header %s is not listed in Access-Control-Expose-Headers (%s)", desc, name, strings.Join(exposed, ", "))
-				}
-			}
-		}
-		for _, name := range canEmit {
+	}
+	for _, name := range headerNames(res.Header) {
+		up := strings.ToUpper(name)
+		if strings.HasPrefix(up, "VGI-") || strings.HasPrefix(up, "X-VGI-") || up == "WWW-AUTHENTICATE" || up == "X-REQUEST-ID" {
 			if !containsFold(exposed, name) {
 				key := name
-				if strings.HasPrefix(strings.ToUpper(name), "VGI-ECHO-") {
+				if strings.HasPrefix(up, "VGI-ECHO-") {
 					key = "VGI-Echo-*"
 				}
-				out.Violate(lib.Keyf("C20", "emittable-header-not-exposed", key), "%s: this configuration can emit %s, which is not listed in Access-Control-Expose-Headers (%s)", desc, name, strings.Join(exposed, ", "))
+				out.Violate(lib.Keyf("C20", "emitted-header-not-exposed", key), "%s: response header %s is not listed in Access-Control-Expose-Headers (%s)", desc, name, strings.Join(exposed, ", "))
 			}
 		}
+	}
+	for _, name := range s.canEmit {
+		if !containsFold(exposed, name) {
+			key := name
+			if strings.HasPrefix(strings.ToUpper(name), "VGI-ECHO-") {
+				key = "VGI-Echo-*"
+			}
+			out.Violate(lib.Keyf("C20", "emittable-header-not-exposed", key), "%s: this configuration can emit %s, which is not listed in Access-Control-Expose-Headers (%s)", desc, name, strings.Join(exposed, ", "))
+		}
+	}
+}
+
+// c20GateWait bounds how long a held request waits for the request answered
+// in between. Passing it only lets the held request go on early (the two then
+// simply overlap); it is never a verdict.
+const c20GateWait = 10 * time.Second
+
+// c20GatedWriter is the harness-owned ResponseWriter of a gated request: at
+// the chosen calls it hands control to at() before doing what was asked.
+type c20GatedWriter struct {
+	rec   *httptest.ResponseRecorder
+	calls int
+	at    func(call int)
+}
+
+func (w *c20GatedWriter) step()                       { n := w.calls; w.calls++; w.at(n) }
+func (w *c20GatedWriter) Header() http.Header         { w.step(); return w.rec.Header() }
+func (w *c20GatedWriter) WriteHeader(code int)        { w.step(); w.rec.WriteHeader(code) }
+func (w *c20GatedWriter) Write(b []byte) (int, error) { w.step(); return w.rec.Write(b) }
+
+type c20Answer struct {
+	s    *c20Server
+	what string
+	r    c20Req
+	path string
+	res  httpResult
+}
+
+// runC20Phase runs the overlapping part of a case and judges every response.
+func runC20Phase(out *lib.Outcome, ph *c20Phase, a, b *c20Server, minted map[string]string) {
+	out.Label("conc:" + ph.Mode)
+	if a == b {
+		out.Label("conc:same-server")
+		if len(a.g.Echo) >= 2 && a.g.Cors != "" {
+			out.Label("conc:same-server-echo-cors")
+		}
+	} else {
+		out.Label("conc:two-servers")
+		if a.g.Cors != "" && b.g.Cors != "" && strings.Join(a.canEmit, ",") != strings.Join(b.canEmit, ",") {
+			out.Label("conc:two-cors-servers-differ")
+		}
+	}
+	// the serve-start hook has to have succeeded on both sides: the phase is
+	// about complete responses (the failing-hook responses are judged in the
+	// sequential part)
+	for _, s := range []*c20Server{a, b} {
+		for k := 0; s.g.HookFails >= 0 && s.hookCalls.Load() <= int64(s.g.HookFails) && k < 4; k++ {
+			doRequest(s.h, "GET", s.g.Prefix+"/health", nil, nil, false)
+		}
+	}
+	var (
+		mu      sync.Mutex
+		answers []c20Answer
+		wg      sync.WaitGroup
+	)
+	serve := func(s *c20Server, what string, r c20Req, wrap func(*httptest.ResponseRecorder) http.ResponseWriter) {
+		r.UseSession = false
+		path, hdr, body := c20Render(s.g, r, "")
+		res := doRequestVia(s.h, r.Method, path, hdr, body, true, wrap)
+		mu.Lock()
+		answers = append(answers, c20Answer{s, what, r, path, res})
+		mu.Unlock()
+	}
+	switch ph.Mode {
+	case "gated":
+		every := max(ph.Every, 1)
+		nb := 0
+		for i, ra := range ph.A {
+			gates := 0
+			wrap := func(rec *httptest.ResponseRecorder) http.ResponseWriter {
+				return &c20GatedWriter{rec: rec, at: func(call int) {
+					if call < ph.From || (call-ph.From)%every != 0 || gates >= ph.Max || len(ph.B) == 0 {
+						return
+					}
+					gates++
+					rb := ph.B[nb%len(ph.B)]
+					what := fmt.Sprintf("side B request #%d (answered while side A request #%d was held at its ResponseWriter call %d)", nb, i, call)
+					nb++
+					done := make(chan struct{})
+					wg.Add(1)
+					go func() {
+						defer wg.Done()
+						defer close(done)
+						serve(b, what, rb, nil)
+					}()
+					select {
+					case <-done:
+						out.Label("conc:gate-used")
+					case <-time.After(c20GateWait):
+						out.Label("conc:gate-wait-passed")
+					}
+				}}
+			}
+			serve(a, fmt.Sprintf("side A request #%d (held at ResponseWriter calls %d+%dk, at most %d times)", i, ph.From, every, ph.Max), ra, wrap)
+		}
+		wg.Wait()
+	case "free":
+		start := make(chan struct{})
+		for side, s := range []*c20Server{a, b} {
+			list := ph.A
+			if side == 1 {
+				list = ph.B
+			}
+			for w := 0; w < ph.Workers; w++ {
+				wg.Add(1)
+				go func() {
+					defer wg.Done()
+					<-start
+					for round := 0; round < ph.Rounds; round++ {
+						for i, r := range list {
+							serve(s, fmt.Sprintf("side %c worker %d round %d request #%d (free-running)", 'A'+side, w, round, i), r, nil)
+						}
+					}
+				}()
+			}
+		}
+		close(start)
+		wg.Wait()
+	}
+	for _, an := range answers {
+		c20Judge(out, an.s, an.what, an.r, an.path, an.res, true, minted)
+		if len(out.Violations) > 0 {
+			return
+		}
+	}
+	out.Label(fmt.Sprintf("conc-responses:%d+", min(len(answers)/10*10, 50)))
+}
+
+func runC20(c c20Case) (out lib.Outcome) {
+	lib.ResetEvents()
+	srv := newC20Server(c.Cfg)
+	defer srv.shutdown()
+	g := c.Cfg
+
+	out.Label(fmt.Sprintf("features:%d", min(srv.features, 6)), "auth:"+g.Auth)
+	if g.Cors != "" {
+		out.Label("cors")
+	}
+
+	minted := map[string]string{}
+	sessionToken := ""
+	for i, r := range c.Reqs {
+		path, hdr, body := c20Render(g, r, sessionToken)
+		callsBefore := srv.hookCalls.Load()
+		res := doRequest(srv.h, r.Method, path, hdr, body, true)
+		if res.Panic == "" {
+			if t := res.Header.Get("VGI-Session"); t != "" {
+				sessionToken = t
+				out.Label("session-opened")
+			}
+			if res.Header.Get("VGI-Session-Close") != "" {
+				out.Label("session-closed")
+			}
+		}
+		hookOK := g.HookFails < 0 || callsBefore >= int64(g.HookFails) // the hook had already succeeded, or succeeds on this request
+		c20Judge(&out, srv, fmt.Sprintf("request #%d", i), r, path, res, hookOK, minted)
+		if res.Panic != "" {
+			return
+		}
+	}
+	if c.Conc != nil && len(out.Violations) == 0 {
+		other := srv
+		if c.Conc.Other != nil {
+			other = newC20Server(*c.Conc.Other)
+			defer other.shutdown()
+		}
+		runC20Phase(&out, c.Conc, srv, other, minted)
 	}
 	// Freshness does not stop at one server object: a second worker built from
 	// the same configuration (same token key — a sibling behind the balancer, or
 	// this one after a restart) must not mint the ids this one minted.
 	if len(minted) > 0 {
 		twin, _ := buildC20(g)
-		for k := 0; k < len(minted)+2; k++ {
+		for k := 0; k < min(len(minted), 8)+2; k++ {
 			r := doRequest(twin, "GET", g.Prefix+"/health", nil, nil, false)
 			if id := r.Header.Get("X-Request-ID"); hex16.MatchString(id) {
 				if prev, dup := minted[id]; dup {
-					out.Violate("C20/request-id-reused-across-servers", "a second server with the same configuration minted %q for its request #%d, the id the first server minted for request #%d", id, k, prev)
+					out.Violate("C20/request-id-reused-across-servers", "a second server with the same configuration minted %q for its request #%d, the id the first server minted for %s", id, k, prev)
 					break
 				}
 			}
@@ -625,12 +880,13 @@ func runC20(c c20Case) (out lib.Outcome) {
 
 var propC20 = lib.Prop[c20Case]{
 	ID: "C20",
-	Rule: "configuration record (prefix in {'', /vgi, /a/b}; CORS off/*/origin, max-age; request/response/externalised caps; upload-URL provider + max upload; external storage; proxy-proof advertisement; proxy auth headers; token introspection; sticky sessions with 0-2 echo headers; compression level; authenticator none/accepting/rejecting (RpcError ValueError/PermissionError, AuthFailure)/unavailable/erroring; OAuth resource metadata; pages on/off; serve-start hook absent/ok/failing 1-2 times; dispatch hook) x 1-5 requests (method in POST/GET/OPTIONS/DELETE/PUT/HEAD/PATCH, 30 path templates over the whole route table and near misses incl. //, .., trailing slash and '*', content type right/wrong/absent, body valid/none/oversize/garbage, bad or unknown Content-Encoding, X-Request-ID absent/empty/blank/1/128/129/long/multi-byte at the 128-byte bound/padded/with interior blanks, session accept and replay of a minted session token). " +
-		"Oracle: exactly one X-Request-ID = caller's SP/HTAB-trimmed id when 1..128 bytes, else fresh ^[0-9a-f]{16}$ distinct within the case and from the ids a second server of the same configuration (same token key) mints; after the serve-start hook succeeded VGI-Supported-Encodings and VGI-Externalization-Enabled (value = storage configured) are present; under CORS every VGI-*/X-VGI-*/WWW-Authenticate/X-Request-ID header on the response, and every header the configuration can emit (own table from the header documentation), is listed in Access-Control-Expose-Headers. " +
+	Rule: "configuration record (prefix in {'', /vgi, /a/b}; CORS off/*/origin, max-age; request/response/externalised caps; upload-URL provider + max upload; external storage; proxy-proof advertisement; proxy auth headers; token introspection; sticky sessions with 0-2 echo headers; compression level; authenticator none/accepting/rejecting (RpcError ValueError/PermissionError, AuthFailure)/unavailable/erroring; OAuth resource metadata; pages on/off; serve-start hook absent/ok/failing 1-2 times; dispatch hook) x 1-5 requests (method in POST/GET/OPTIONS/DELETE/PUT/HEAD/PATCH, 30 path templates over the whole route table and near misses incl. //, .., trailing slash and '*', content type right/wrong/absent, body valid/none/oversize/garbage, bad or unknown Content-Encoding, X-Request-ID absent/empty/blank/1/128/129/long/multi-byte at the 128-byte bound/padded/with interior blanks, session accept and replay of a minted session token); a quarter of the cases continue with an overlapping part: a second server of an independently drawn configuration (or the same server, then preferably with 2-3 sticky echo headers), CORS mostly on on both sides, 1-2 requests of side A and 1-3 of side B, either gated (A is served through a harness-owned ResponseWriter and held at its ResponseWriter calls from+k*every, at most 1-48 times, while one request of B is answered start to end; a 10 s bound on the hold only releases A early) or free-running (2-3 goroutines per side x 4-24 rounds behind a start barrier). " +
+		"Oracle: exactly one X-Request-ID = caller's SP/HTAB-trimmed id when 1..128 bytes, else fresh ^[0-9a-f]{16}$ distinct within the case and from the ids a second server of the same configuration (same token key) mints; after the serve-start hook succeeded VGI-Supported-Encodings and VGI-Externalization-Enabled (value = storage configured) are present; under CORS every VGI-*/X-VGI-*/WWW-Authenticate/X-Request-ID header on the response, and every header the configuration can emit (own table from the header documentation), is listed in Access-Control-Expose-Headers; every response of the overlapping part is judged by the same three clauses against the configuration of the server that produced it, and its minted ids join the freshness set. " +
 		"Non-trivial: non-2xx or OPTIONS response under CORS with >=2 optional features on.",
 	Gen:          genC20,
 	Run:          runC20,
-	Essential:    []string{"cors", "hook-failing-response", "rid:echo", "rid:minted", "rid:oversize", "status:401", "status:404", "status:413", "status:415", "status:204", "status:500", "status:503", "session-opened", "session-closed", "status:200", "method:OPTIONS"},
+	Essential:    []string{"cors", "hook-failing-response", "rid:echo", "rid:minted", "rid:oversize", "status:401", "status:404", "status:413", "status:415", "status:204", "status:500", "status:503", "session-opened", "session-closed", "status:200", "method:OPTIONS",
+		"conc:gated", "conc:free", "conc:gate-used", "conc:two-cors-servers-differ", "conc:same-server", "conc:same-server-echo-cors"},
 	EssentialMin: 400,
 	Assumptions: []string{
 		"'trimmed' means leading/trailing SP and HTAB (the only padding an HTTP peer can deliver)",
